@@ -103,5 +103,70 @@ def run(seed=0, rounds=400):
     w.__nutils_hash__ = b'fresh'
     functools.update_wrapper(w, f)
     check('update_wrapper-updates-dict-and-sets-wrapped', w.__wrapped__ is f and w.extra == 1 and w.__nutils_hash__ == b'stale' and w.__name__ == 'f')
+    # ---- C18 externals: pickle on files, fcntl constants, contextlib.contextmanager
+    import io, pickle, contextlib
+    for _ in range(min(rounds, 120)):
+        obj = _random_entry(rng)
+        blob = pickle.dumps(obj)
+        tail = bytes(rng.randint(0, 256, size=rng.randint(0, 40)).tolist())
+        f = io.BytesIO(blob + tail)
+        got = pickle.load(f)
+        check('pickle.load-returns-the-first-pickle-and-ignores-what-follows', _same(got, obj) and f.tell() == len(blob), len(blob), len(tail))
+        stale = pickle.dumps(_random_entry(rng)) + b'x' * int(rng.randint(0, 300))
+        f = io.BytesIO()
+        f.write(stale)
+        f.seek(0)
+        pickle.dump(obj, f)  # no truncate: the rest of the longer stale entry stays behind
+        size_after = len(f.getvalue())
+        f.seek(0)
+        check('dump-at-offset-0-does-not-truncate-and-load-reads-the-new-entry', _same(pickle.load(f), obj) and size_after == max(len(stale), len(blob)), len(stale), len(blob))
+        bad = {}
+        for k in range(len(blob)):
+            try:
+                pickle.load(io.BytesIO(blob[:k]))
+                bad[k] = 'returned'
+            except (EOFError, pickle.UnpicklingError, IndexError):
+                pass
+            except Exception as e:
+                bad[k] = type(e).__name__
+        check('ASSUMPTION-a-cut-off-pickle-raises-EOFError-UnpicklingError-or-IndexError', not bad, sorted(bad.items())[:3])
+    try:
+        import fcntl
+        check('fcntl-lock-constants', (fcntl.LOCK_SH, fcntl.LOCK_EX, fcntl.LOCK_NB, fcntl.LOCK_UN) == (1, 2, 4, 8))
+    except ImportError:
+        pass
+    trace = []
+
+    @contextlib.contextmanager
+    def cm():
+        trace.append('enter')
+        try:
+            yield
+        finally:
+            trace.append('exit')
+    try:
+        with cm():
+            trace.append('body')
+            raise KeyError('x')
+    except KeyError:
+        trace.append('propagated')
+    check('contextmanager-runs-the-body-at-the-yield-and-raises-its-exception-there', trace == ['enter', 'body', 'exit', 'propagated'], trace)
     print('AXIOMS ' + json.dumps(dict(rounds=rounds, failures=fails[:5])))
     return not fails
+
+
+def _random_entry(rng):
+    """a cache entry like the ones cache.function / Recursion write: (value, log) or (log, stop, value)"""
+    import treelog
+    rl = treelog.RecordLog()
+    with treelog.set(rl):
+        for _ in range(int(rng.randint(0, 3))):
+            treelog.info('message %d' % rng.randint(0, 100))
+    kind = int(rng.randint(0, 4))
+    value = [None, float(rng.rand()), numpy.asarray(rng.rand(int(rng.randint(0, 6)))), {'a': (1, 'two', 3.5), 'b': numpy.arange(int(rng.randint(0, 4)))}][kind]
+    return (value, rl) if rng.randint(0, 2) else (rl, bool(rng.randint(0, 2)), value)
+
+
+def _same(a, b):
+    import pickle
+    return pickle.dumps(a) == pickle.dumps(b)
